@@ -82,7 +82,8 @@ fn generics(g: &Generics) -> String {
             }
         }
     }
-    format!("{{\"params\":{},\"where\":{}}}", arr(ps), arr(wh))
+    let nlt = g.params.iter().filter(|p| matches!(p, GenericParam::Lifetime(_))).count();
+    format!("{{\"params\":{},\"where\":{},\"lifetimes\":{}}}", arr(ps), arr(wh), nlt)
 }
 
 fn fields(f: &Fields) -> String {
